@@ -4789,6 +4789,11 @@ impl Env {
     pub fn try_borrow_peek(env: &Rc<RefCell<Env>>, i: usize) -> NRes<Obj> {
         let r = try_borrow_nres(env, "internal", "peek")?;
         let s = &r.internal_stack;
+        if i >= s.len() {
+            return Err(NErr::empty_error(
+                "internal peek: stack too short".to_string(),
+            ));
+        }
         let x = s[s.len() - i - 1].clone();
         std::mem::drop(r);
         Ok(x)
@@ -4798,6 +4803,11 @@ impl Env {
         let mut r = try_borrow_mut_nres(env, "internal", "peek set")?;
         let s = &mut r.internal_stack;
         let n = s.len();
+        if i >= n {
+            return Err(NErr::empty_error(
+                "internal peek: stack too short".to_string(),
+            ));
+        }
         s[n - i - 1] = x;
         Ok(())
     }
@@ -4819,6 +4829,11 @@ impl Env {
     pub fn modify_peek<T>(&mut self, i: usize, f: impl FnOnce(&mut Obj) -> NRes<T>) -> NRes<T> {
         let s = &mut self.internal_stack;
         let n = s.len();
+        if i >= n {
+            return Err(NErr::empty_error(
+                "internal peek: stack too short".to_string(),
+            ));
+        }
         f(&mut s[n - 1 - i])
     }
 
